@@ -73,6 +73,15 @@ def run_schedule(sc):
     opts = {"simgen": False, "tape_criteria": False, "probe_check_move": False}
     w = make_world(sc, (), opts)
     mc = w.mc
+    if sc.get("route") == "from_dict":
+        # the table reaches the scheduler through a state dictionary (restart route): what the user configured must
+        # still be honoured by the rebuilt simulation
+        from simkit import calcs
+
+        state = mc.to_dict()
+        mc.close()
+        mc = type(mc).from_dict(state)
+        mc.atoms.calc = calcs.make_calc(sc["calc"])
     out = []
     start = mc.step_count
     # the step number is the harness's own count of steps already performed (what the simulation had in step_count
@@ -188,11 +197,13 @@ class C09(Campaign):
 
     def generate(self, rnd, tier, index):
         cycles, entries = gen_table(rnd)
-        real = rnd.random() < 0.15
+        real = rnd.random() < 0.25
         nsteps = rnd.choice([50, 200, 600]) if not real else rnd.choice([30, 100])
         if rnd.random() < 0.15:
             nsteps = 2000 if not real else 300
         sc = build_scenario(rnd, cycles, entries, nsteps, real)
+        if real and rnd.random() < 0.5:
+            sc["route"] = "from_dict"  # the configured table reaches the scheduler through to_dict / from_dict
         if rnd.random() < 0.4:
             sc["overcommit"] = {"minimum_count": cycles - sum(e.get("minimum_count", 0) for e in entries) + rnd.randint(1, 3),
                                 "interval": rnd.choice([1, 1, 2, 3, 4, 5, 6])}
